@@ -28,6 +28,7 @@ from sa.symex import Interp
 
 RULES = {
     "R-C02-j": "the index-cube fill closures come in a traced and an untraced variant (timing diagnostics): both store the same cell values",
+    "R-C02-l": "the index methods a cube reads (slices1d, sliced, items, get, common_rowids, abscissae, size) keep nothing on the index between calls (frame analysis shared with C17)",
     "R-C02-k": "per configuration, a region that receives weight values is a float region and one that receives fact values is float or has the summed array's dtype (an integer region truncates on the store)",
     "R-C02-i": "pooled evaluation: reduce (marginal differencing) runs only after every sub-cube task has finished - blocking, re-raising dispatch on a pool created for the call (imported from the C16 analysis)",
     "R-C02-h": "every region an aggregate allocates is 64-bit int/float (or the fact array's own dtype): wide enough for any row count and for the negative intermediate values of marginal differencing",
@@ -117,6 +118,24 @@ def rule_e(prog, rep):
     where = fi.fq
     REGION = tm.param([a for a in fi.params() if a not in ("self", "cls")][0])  # first parameter, whatever its name
     st = [e for e in I.events if e.kind == "store_sub" and e["base"] == REGION]
+    # an accumulator that is a VIEW of one plane of the array it loops over adds itself when the loop reaches that plane
+    for a in [e for e in I.events if e.kind == "aug_name" and e.loops]:
+        old = a["old"]
+        for alt in tm.alts(old):
+            if alt.op != "sub":
+                continue
+            base = alt.args[0]
+            for lid in a.loops:
+                it = I.loopinfo.get(lid, {}).get("iter")
+                if it is None:
+                    continue
+                itbase = it.args[0] if it.op == "sub" else it
+                if itbase == base and tm.contains(base, lambda x: x == REGION) and not any(tm.contains(c, lambda x: x.op == "cmp" and x.args[0] in ("is", "is not", "!=", "==")) for c, pol in a.guards):
+                    rep.violated("R-C02-e", "%s@%d" % (where, a.line), "the common cells are written from the margin and the uncommon planes only",
+                                 "`%s %s= <plane>` accumulates into %s, which is a view of one of the planes the loop runs over (%s): when the loop reaches that plane the running total is added to itself - "
+                                 "exact only while nothing has been accumulated yet, i.e. for common category 0" % (a["name"], a["op"], tm.show(alt)[:50], tm.show(it)[:50]),
+                                 witness={"inputs": "a dimension whose common category is not 0 (e.g. after shift_common(1)): the reconstructed cells lose the sum of the planes below it"})
+                    return
     if len(st) != 1 or not st[0].loops:
         rep.undecided("R-C02-e", where, "differencing store", "expected one store into the region inside the per-axis loop")
         return
@@ -251,6 +270,19 @@ def main(tier):
     for o in sub.obls:
         rep.add("R-C02-f", o.where, "[%s] %s" % (o.rule, o.construct), o.status, o.detail, True, o.witness)
     rep.floor("R-C02-f", 30, len(sub.obls))
+    # R-C02-l: what the cube reads from a dimension (its 1-D slices, items, common rows) is computed from the index's
+    # CURRENT entries at every evaluation - a cache kept on the index survives in-place edits that bypass its invalidation
+    # (dict.pop does not call __delitem__) and the next cube counts rows that are no longer there
+    import c17
+    st17 = {"events": 0, "mods": 0, "diagnostic": {}, "exceptions": {}, "regions": 0, "shortcuts": 0}
+    k17 = 0
+    ii17 = prog.cls("iindexes", "iindex")
+    for n17 in ("slices1d", "sliced", "items", "get", "common_rowids", "abscissae", "size"):
+        f17 = ii17.methods.get(n17)
+        if f17 is not None:
+            c17.analyse_root(prog, f17, "pure", rep, st17, RA="R-C02-l", RB="R-C02-l", extra=False)
+            k17 += 1
+    rep.floor("R-C02-l", 5, k17)
     return rep.finish()
 
 
